@@ -128,6 +128,32 @@ def pred_interval(f, t, var):
     return None
 
 
+def _is_wire_length_bound(t, var):
+    """`len(<one payload field of var>) <= 65535` (or `< 65536`), in either orientation"""
+    t = peel(t)
+    if t[0] != "bin" or t[1] not in ("Le", "Lt", "Ge", "Gt"):
+        return False
+    a, b, op = peel(t[2]), peel(t[3]), t[1]
+    if op in ("Ge", "Gt"):
+        a, b, op = b, a, {"Ge": "Le", "Gt": "Lt"}[op]
+    for _ in range(3):
+        if b[0] == "cast" or (is_call(b, "From::from", "Into::into") and len(b[3]) == 1):
+            b = peel(b[2] if b[0] == "cast" else b[3][0])
+    if b[0] != "const" or b[2] != (65535 if op == "Le" else 65536):
+        return False
+    if not (is_call(a, "len") and len(a[3]) == 1):
+        return False
+    inner = peel(a[3][0])
+    for _ in range(6):
+        if inner[0] in ("ref", "deref"):
+            inner = peel(inner[1])
+        elif inner[0] == "field" and inner[2] in ("0",) and peel(inner[1])[0] not in ("downcast",):
+            inner = peel(inner[1])       # a newtype around the slice
+        else:
+            break
+    return not any(x[0] == "bin" for x in walk(inner)) and any(x[0] == "downcast" and x[2] == var for x in walk(inner))
+
+
 def rule_value(R):
     f = R.f
     hv = roles.method(f, PROP, "has_valid_value")
@@ -145,6 +171,11 @@ def rule_value(R):
         hi = widths.get(wire)
         if rule is None:
             ok = bool(ivs) and all(i == "all" or (hi is not None and i == (0, INF)) for i in ivs)
+            if not ok and wire in ("utf8", "binary", "utf8pair") and vals and all(v is not None for v in vals):
+                # a string or binary field cannot be longer than 65535 bytes on the wire: a test of one field's own length
+                # against that bound (and nothing tighter) refuses nothing legal
+                ok = any(_is_wire_length_bound(v, var) for v in vals) and all(
+                    _is_wire_length_bound(v, var) or (peel(v)[0] == "const" and (peel(v)[2] == 1 or len(vals) > 1)) for v in vals)
             R.ob("value/%s" % var, ok,
                  "every value of %s is legal for a client to send, so has_valid_value must accept all of them (extracted %s)"
                  % (var, ivs), where=hv.span)
@@ -558,6 +589,7 @@ def rule_fit(R):
 def rule_negotiated(R):
     """auto-downgrade compares against the Maximum QoS of the CONNACK of this connection"""
     roles.clause_negotiated_per_connection(R, "qos", ("max_qos",))
+    roles.clause_connack_walk_complete(R, "qos/connack-walk-complete")
 
 
 def rule_dead(R):
